@@ -89,7 +89,7 @@ def run(ctx):
     ctx.assumptions += ['kernel contract: lowest Ritz value <= Rayleigh quotient of the start vector (observed per local problem)',
                         'mode-N bounds 1e-9 ||H|| (consistency 1e-8 ||H||, exact ground state 1e-7 ||H||)']
     sweep_models(ctx, ['dmrg1', 'dmrg2'])
-    cases = [ctx.replay['replay']['case']] if ctx.replay is not None else [gen_case(rng) for _ in range(ctx.pick(300, 3000))] + \
+    cases = [ctx.replay['replay']['case']] if ctx.replay is not None else [gen_case(rng) for _ in range(ctx.pick(300, 24000))] + \
         [dict(c) for c in PINNED]
     traces = pmap(record, cases)
     for c, tr in zip(cases, traces):
@@ -98,7 +98,7 @@ def run(ctx):
     ctx.notes['local_problems_observed'] = sum(1 for tr in traces for r in tr if r['ev'] == 'local')
     for tr in traces[::max(1, len(traces) // 4)]:
         ctx.sample(tr[:4] + tr[-1:])
-    bad = validate_chunks(ctx, 'TraceSweep', 'ts10', traces, chunk=ctx.pick(20, 300), relax=sweepgen.relax)
+    bad = validate_chunks(ctx, 'TraceSweep', 'ts10', traces, chunk=ctx.pick(20, 800), relax=sweepgen.relax)
     for idx, why in sorted(bad.items())[:40]:
         clause = why[0][2] if why and len(why[0]) > 2 else 'rejected'
         ctx.violation(f'dmrg:{cases[idx]["alg"]}:{clause[:70]}', f'{cases[idx]}: record {why[0][0] if why else "?"}: {clause}', dict(case=cases[idx]))
